@@ -31,6 +31,18 @@ CHECKS = {
    design_ref="§5 C16",
    note="Histories are a seeded sample; per history the fault enumeration over k is complete. Record types without multi-entry maps only. Behaviour after the first failed call is not judged.",
    technique="deterministic simulation: SimDisk write-fault enumeration (every write index x 4 variants) against the fault-free run of the same history"),
+ "C10": dict(
+   category="exploration",
+   text="1..3 ReadFile tasks run as coroutines over their own multi-block files (3 codecs, both writers) interleaved by the plan, plus a direct ReadBuf/ResourceBank user; the bank pool is the simulator's (hooks): each bank request gets the oldest / newest / another free bank or a fresh one, as the plan says. After EVERY operation: every record whose bank is open equals the deep copy taken at delivery and equals the same record read with fresh banks only; every Alloc is all-zero on return although the previous owner poisoned the memory before closing; all live allocations and interned strings are pairwise disjoint; no bank is issued to two live users.",
+   design_ref="§5 C10",
+   note="Sampled histories (<=150 operations). The simulated pool over-approximates sync.Pool (any previously closed bank or a new one). Nothing is inspected after its bank is closed.",
+   technique="deterministic simulation: interleaved reader coroutines + simulator-owned bank pool (plan-chosen recycling), invariants after every step"),
+ "C11": dict(
+   category="exploration",
+   text="The garbage collector's schedule is owned by the simulator (GOGC=off; full collection + size-class churn exactly at the numbered GC points a plan selects: callbacks, every SimDisk read/write, after ReadFile, around bank closes, and inside records between fields / array items / map entries through Probe fields registered via avro.Register). Each plan runs twice: A without any collection, B with the plan's collections; every value B holds must equal A's after each collection and at the end; encoder output of B must equal A's (bytes, or decoded datums where multi-entry maps are involved).",
+   design_ref="§5 C11",
+   note="Manifestation of a wrongly freed object depends on allocator reuse (stable in all trials; churn covers pointerful and pointer-free size classes). Shapes: *map, **map, []*map, *map of records, maps of maps/slices/records, *[]T, []*T, **T, *[]byte, [][]T, *[N]byte, **[N]byte, []*[N]byte and all of them behind pointer/slice/map.",
+   technique="deterministic simulation: simulator-owned GC schedule (GC points as injected events) with run-A/run-B metamorphic oracle"),
 }
 
 NOT_APPLICABLE = {
@@ -49,7 +61,7 @@ NOT_APPLICABLE = {
 }
 
 # planned simulation targets whose check is not built yet (kept honest while the build is in progress)
-PENDING = {k: "planned simulation target (DESIGN §5); its check is still under construction in this commit, so it is not claimed yet" for k in ["C06","C10","C11","C12"]}
+PENDING = {k: "planned simulation target (DESIGN §5); its check is still under construction in this commit, so it is not claimed yet" for k in ["C06","C12"]}
 
 def main():
     hooks_commits = []
